@@ -875,3 +875,12 @@ fn s18_now() {
     assert!(Timestamp::try_from(mk_time(t)).unwrap().usecs() == n * USECS_DAY + t);
     assert!(OracleDate::try_from(mk_time(t)).unwrap().usecs() == n * USECS_DAY + t - t % 1_000_000);
 }
+
+//@ unit s16_sub_date prop=C16,C02,C03 engine=smt bound="every pair of Oracle-style dates: sub_date = the exact microsecond distance (integer subtraction, no overflow) divided by 86400e6 in f64"
+fn s16_sub_date() {
+    let a: i64 = kani::any();
+    let b: i64 = kani::any();
+    kani::assume(a >= TS_MIN / 1_000_000 && a <= TS_MAX / 1_000_000 && b >= TS_MIN / 1_000_000 && b <= TS_MAX / 1_000_000);
+    let r = mk_od(a * 1_000_000).sub_date(mk_od(b * 1_000_000));
+    assert!(r == ((a - b) * 1_000_000) as f64 / 86_400_000_000.0);
+}
